@@ -1,10 +1,12 @@
 //! pkverif: conformance harness binding the TLA+ specifications in /verif/spec to the code in /repo.
+mod alloc;
 mod authdata;
 mod cer;
 mod cerclient;
 mod cerrun;
 mod conc;
 mod ctapcodec;
+mod dec;
 mod hid;
 mod jsoncodec;
 mod leaks;
@@ -14,6 +16,9 @@ mod rpid;
 mod stores;
 mod u2f;
 mod util;
+
+#[global_allocator]
+static ALLOC: alloc::Counting = alloc::Counting;
 
 fn main() {
     let raw: Vec<String> = std::env::args().skip(1).collect();
@@ -27,6 +32,7 @@ fn main() {
         "cer" => cerrun::main(&args),
         "conc" => conc::main(&args),
         "ctapcodec" => ctapcodec::main(&args),
+        "dec" => dec::main(&args),
         "hid" => hid::main(&args),
         "jsoncodec" => jsoncodec::main(&args),
         "psl" => psl::main(&args),
